@@ -54,6 +54,47 @@ def check_segments(year, tz):
     return bad
 
 
+def expected_weights(month, seg_type):
+    """column name -> weight vector, by the statement: full weight in the own month's segment, (three_month_weighted) half in the two neighbours'"""
+    out = {}
+    for k in range(1, 13):
+        prev, nxt = (k - 2) % 12 + 1, k % 12 + 1
+        if seg_type == "one_month":
+            out[NAMES[k - 1]] = (month == k).astype(float)
+        elif seg_type == "three_month":
+            out[three(k)] = ((month == k) | (month == prev) | (month == nxt)).astype(float)
+        elif seg_type == "three_month_weighted":
+            out[three(k) + "-weighted"] = np.where(month == k, 1.0, np.where((month == prev) | (month == nxt), 0.5, 0.0))
+    if seg_type == "single":
+        out["all"] = np.ones(len(month))
+    return out
+
+
+def check_segments_partial(tz, start, end, history_tz=None):
+    """a baseline that covers only some calendar months, with and without `drop_zero_weight_segments`: every column that carries weight is there with the
+    stated weights (the flag may only remove columns that are zero everywhere); optionally after the SAME instants were segmented in another zone"""
+    from opendsm.eemeter.models.hourly_caltrack.segmentation import segment_time_series
+    idx = pd.date_range(start, end, freq="h", tz=tz, inclusive="left")
+    bad = []
+    for seg_type in ("one_month", "three_month", "three_month_weighted", "single"):
+        for drop in (False, True):
+            if history_tz:
+                segment_time_series(idx.tz_convert(history_tz), seg_type, drop_zero_weight_segments=drop)     # an earlier call, same instants, other clock
+            w = segment_time_series(idx, seg_type, drop_zero_weight_segments=drop)
+            exp = expected_weights(idx.month.values, seg_type)
+            for col, e in exp.items():
+                if col in w.columns:
+                    if not np.array_equal(w[col].values.astype(float), e):
+                        n = int((w[col].values.astype(float) != e).sum())
+                        bad.append(f"{seg_type} (drop={drop}{', after ' + history_tz if history_tz else ''}): {n} hours with a wrong weight in {col}")
+                elif not drop or e.any():
+                    bad.append(f"{seg_type} (drop={drop}): column {col} is missing although {int((e > 0).sum())} hours carry weight in it")
+            extra = [c for c in w.columns if c not in exp]
+            if extra:
+                bad.append(f"{seg_type}: unexpected columns {extra[:3]}")
+    return bad[:6]
+
+
 def check_time_features(year, tz):
     from opendsm.eemeter.common.features import compute_time_features, compute_occupancy_feature
     idx = hours(year, tz)
@@ -172,7 +213,9 @@ def replay(case):
     k = case["kind"]
     if k == "partial_model":
         return {"ok": not (bad := check_partial_model(case["tz"])), "problems": bad}
-    if k == "segments":
+    if k == "segments_partial":
+        bad = check_segments_partial(case["tz"], case["start"], case["end"], case.get("history_tz"))
+    elif k == "segments":
         bad = check_segments(case["year"], case["tz"])
     elif k == "time":
         bad = check_time_features(case["year"], case["tz"])
@@ -200,6 +243,11 @@ def run(tier="quick", seed=0):
         cases.append({"kind": "processor", "tz": tz})
         if tz in ("UTC", "America/Chicago") or tier == "thorough":
             cases.append({"kind": "partial_model", "tz": tz})
+    # baselines covering some months only (drop flag on and off), and the same instants segmented on another clock earlier in the process
+    cases.append({"kind": "segments_partial", "tz": "America/Chicago", "start": "2021-01-01", "end": "2021-04-01"})
+    cases.append({"kind": "segments_partial", "tz": "Europe/Berlin", "start": "2020-11-15", "end": "2021-02-10"})
+    cases.append({"kind": "segments_partial", "tz": "America/Los_Angeles", "start": "2020-01-01", "end": "2021-01-01", "history_tz": "UTC"})
+    cases.append({"kind": "segments_partial", "tz": "UTC", "start": "2021-01-01", "end": "2022-01-01", "history_tz": "Australia/Sydney"})
     cand = [30, 45, 55, 65, 75, 90]
     for r in range(7):
         for sub in itertools.combinations(cand, r):
